@@ -75,7 +75,13 @@ func RunGatedPool(r *Run, node execution.Node, jsonWorkers int, ctl *Ctl, produc
 		}
 		out.Leaked = len(ctl.Enabled())
 		ctl.Abort()
-		synctest.Wait()
+		for i := 0; i < 100; i++ {
+			synctest.Wait()
+			if len(ctl.Enabled()) == 0 {
+				break
+			}
+			ctl.AbortLate()
+		}
 	})
 	if p != nil && !out.Deadlock {
 		// after a detected deadlock the bubble cannot end cleanly: expected, not a harness problem
